@@ -100,6 +100,19 @@ func normVal(v interface{}) interface{} {
 		}
 		return out
 	case map[string]interface{}:
+		if imm, ok := x["__imm"]; ok && len(x) == 1 { // {"__imm": [...]} / {"__imm": {...}}: an immutable array / map
+			switch y := normVal(imm).(type) {
+			case []interface{}:
+				if o, err := tengo.FromInterface(y); err == nil {
+					return &tengo.ImmutableArray{Value: o.(*tengo.Array).Value}
+				}
+			case map[string]interface{}:
+				if o, err := tengo.FromInterface(y); err == nil {
+					return &tengo.ImmutableMap{Value: o.(*tengo.Map).Value}
+				}
+			}
+			return nil
+		}
 		out := map[string]interface{}{}
 		for k, e := range x {
 			out[k] = normVal(e)
@@ -575,6 +588,9 @@ func targeted() []Scenario {
 			Src: "acc := 0\nfor i := 0; i < 100; i++ {\n  arr[i % 3] += id\n  if i == id % 50 + 10 { acc = acc + [] }\n  acc += arr[i % 3]\n}\n"},
 		{Name: "built-strings", IDVar: "id",
 			Src: "s := \"ab\" + string(id) + \"é\"\nc := s[1]\nn := 0\nfor ch in s { n += 1 }\nu := s[1:3]\nb := bytes(s)\nb2 := b[0]\n"},
+		{Name: "thawed-immutable-inputs", IDVar: "id", // Clone turns an immutable input into a mutable copy
+			Vars: map[string]interface{}{"cfg": map[string]interface{}{"__imm": map[string]interface{}{"a": 0, "l": []interface{}{0, 1}, "im": map[string]interface{}{"__imm": []interface{}{1, []interface{}{2}}}}}},
+			Src:  "cfg.a = id\ncfg.l[0] = id + 1\ncfg.im[1][0] = id + 2\nacc := 0\nfor i := 0; i < 40; i++ { acc += cfg.a + cfg.l[0] + cfg.im[1][0] }\nout := cfg\n"},
 		{Name: "immutable-inputs", IDVar: "id", Vars: map[string]interface{}{"cfg": map[string]interface{}{"k": []interface{}{1, 2}}},
 			Src: "im := immutable(cfg)\ncfg.k[0] = id\ncp := copy(cfg)\ncp.k[1] = id + 1\nout := [im, cfg, cp]\ne := error(cfg)\n"},
 	}
@@ -1184,7 +1200,16 @@ func replayFile(path string, r *lib.RNG) {
 func main() {
 	flag.BoolVar(&isChild, "c08child", false, "internal: this is the -race child")
 	flag.BoolVar(&noRace, "c08norace", false, "do not build/run the -race child")
+	show := flag.Bool("c08show", false, "print the solo results of the targeted scenarios and exit")
 	flags = lib.ParseFlags()
+	if *show {
+		res = lib.NewResult("C08", flags)
+		for _, sc := range targeted() {
+			so := solo(sc, 2)
+			fmt.Printf("%s: err=%v unstable=%v touches=%v\n  orig: %s\n  c0: %s\n  c1: %s\n", sc.Name, so.err, so.unstable, so.touches, so.orig, so.clone[0], so.clone[1])
+		}
+		return
+	}
 	res = lib.NewResult("C08", flags)
 	res.Extra = map[string]interface{}{}
 	res.Rule = "programs: type-directed generator (closures, containers, strings, run-time errors) plus targeted ones (mutated array/map inputs, closures in globals, source/builtin modules, ReplaceBuiltinModule per clone, run-time failures, strings built at run time); " +
@@ -1209,9 +1234,9 @@ func main() {
 		return
 	}
 
-	nGen, reps := flags.Scale(150, 3000), flags.Scale(6, 20)
+	nGen, reps := flags.Scale(150, 1000), flags.Scale(6, 10)
 	if raceEnabled {
-		nGen, reps = flags.Scale(18, 150), flags.Scale(2, 3)
+		nGen, reps = flags.Scale(18, 70), flags.Scale(2, 3)
 	}
 	treps := reps * 2
 	if raceEnabled {
